@@ -101,7 +101,21 @@ pub fn lark_to_llguidance(mut builder: GrammarBuilder, lark: &str) -> Result<Gra
     compile_lark(builder, parsed)
 }
 
+/// Rules and terminals are compiled depth-first along their references; `in_progress` holds
+/// the ones on the current path.  A chain `r0: r1`, `r1: r2`, ... of thousands of rules would
+/// otherwise overflow the stack.
+const MAX_REFERENCE_DEPTH: usize = 128;
+
 impl Compiler {
+    fn check_reference_depth(&self) -> Result<()> {
+        ensure!(
+            self.in_progress.len() < MAX_REFERENCE_DEPTH,
+            "rule references nested too deeply (more than {} levels)",
+            MAX_REFERENCE_DEPTH
+        );
+        Ok(())
+    }
+
     fn do_token(&mut self, name: &str) -> Result<RegexId> {
         if let Some(id) = self.regex_ids.get(name) {
             return Ok(*id);
@@ -109,6 +123,7 @@ impl Compiler {
         if self.in_progress.contains_key(name) {
             bail!("circular reference in token {:?} definition", name);
         }
+        self.check_reference_depth()?;
         self.in_progress.insert(name.to_string(), false);
         let token = self
             .grammar
@@ -513,6 +528,7 @@ impl Compiler {
             .remove(name)
             .ok_or_else(|| anyhow!("rule {:?} not found", name))?;
 
+        self.check_reference_depth()?;
         self.in_progress
             .insert(name.to_string(), rule.is_parametric);
 
